@@ -74,10 +74,10 @@ func (c *FnCtx) cloneInto(st *State, t types.Type, src, dst string, depth int) {
 			}
 		case *types.Interface:
 			nr := c.newRef(st, "clone$"+f.Name())
-			nv = Ite("(= (i-tag "+sv+") 0)", "nil-iface", "(mk-iface (i-tag "+sv+") "+nr+")")
+			nv = Ite("(= (i-tag "+sv+") 0)", nilIface, "(mk-iface (i-tag "+sv+") "+nr+")")
 		case *types.Slice:
 			nr := c.newRef(st, "clone$"+f.Name())
-			nv = Ite("(= (s-len "+sv+") 0)", "nil-slice", "(mk-slice "+nr+" 0 (s-len "+sv+") (s-len "+sv+"))")
+			nv = Ite("(= (s-len "+sv+") 0)", nilSlice, "(mk-slice "+nr+" 0 (s-len "+sv+") (s-len "+sv+"))")
 		case *types.Map:
 			nr := c.newRef(st, "clone$"+f.Name())
 			nv = Ite("(= "+sv+" 0)", "0", nr)
@@ -117,7 +117,7 @@ func init() {
 			c.cloneInto(st, mt, "(i-val "+m.E+")", nr, 0)
 		}
 		c.eng.onAlloc(c, st, nr, nil)
-		r := Val{T: m.T, Dyn: m.Dyn, E: c.sc.Define("clone", sIface, Ite("(= (i-tag "+m.E+") 0)", "nil-iface", "(mk-iface (i-tag "+m.E+") "+nr+")"))}
+		r := Val{T: m.T, Dyn: m.Dyn, E: c.sc.Define("clone", sIface, Ite("(= (i-tag "+m.E+") 0)", nilIface, "(mk-iface (i-tag "+m.E+") "+nr+")"))}
 		return &r
 	}
 	preludeTable[P+"Equal"] = func(c *FnCtx, fr *Frame, st *State, fn *ssa.Function, args []Val, pos token.Pos) *Val {
